@@ -793,3 +793,154 @@ Proof.
   { induction l as [|c l IHl]; intros s0; cbn [fold_left]; [reflexivity|]. rewrite IHl. reflexivity. }
   rewrite G in Hg0. exact Hg0.
 Qed.
+
+(* ------------------------------------------------------------------ events *)
+Lemma task_entry s g : FI None s -> In g (s_regs s) -> FIx (g_gid g) s /\ statics s g /\ RegOK None s g /\ PFok g.
+Proof. intros H Hg. pose proof H as [HG Ho]. destruct (Ho g Hg). repeat split; auto; [apply FI_to_FIx; exact H | exists g; tauto | apply (statics_of_In s g HG Hg)]. Qed.
+
+Lemma trigger_FI s x tv l : FI None s -> FI None (trigger s x tv l).
+Proof. intros H. unfold trigger. destruct (find_reg s x) as [g|] eqn:E; [|exact H]. apply find_reg_In in E as [E _].
+  destruct (task_entry s g H E) as (A & B & C & D). apply (put_back s g); auto. destruct (g_phase g); exact D. Qed.
+Lemma trigger_burst_FI order burst : forall s, FI None s -> FI None (trigger_burst order burst s).
+Proof. unfold trigger_burst. induction burst as [|tb bs IH]; intros s H; cbn [fold_left]; [exact H|]. apply IH.
+  assert (H1 : FI None (set_version s (s_version s + 1))) by (apply (FI_frame None s); [sameG | apply piggy_shrinks_refl; reflexivity | exact H]).
+  revert H1. generalize (set_version s (s_version s + 1)). induction order as [|x o IHo]; intros s0 H0; cbn [fold_left]; [exact H0|].
+  apply IHo. apply trigger_FI. exact H0. Qed.
+Lemma wake_FI l : forall s, FI None s -> FI None (wake l s).
+Proof. unfold wake. induction l as [|x l IH]; intros s H; cbn [fold_left]; [exact H|]. apply IH.
+  destruct (find_reg s x) as [g|] eqn:E; [|exact H]. apply find_reg_In in E as [E _].
+  destruct (task_entry s g H E) as (A & B & C & D). apply run_loop_FI; assumption. Qed.
+
+Lemma remove_exchange_FI s r mid b : FI None s -> FI None (remove_exchange s r mid b).
+Proof.
+  intros H. unfold remove_exchange. destruct (find _ (s_exch s)) as [x|]; [|exact H].
+  set (sA := cancel_timers (set_exch s _) _).
+  set (sB := if b then stop sA (x_gid x) else sA).
+  pose proof H as [HG Ho].
+  assert (HA : forall r', has_exchange s r' = true -> has_exchange (pad sA r) r' = true).
+  { intros r' Hr. rewrite has_exchange_pad. destruct (Z.eq_dec r r') as [->|Hne]; [rewrite Z.eqb_refl; apply orb_true_r|].
+    replace (has_exchange sA r') with true; [reflexivity|]. symmetry. subst sA. unfold has_exchange, cancel_timers. fsimpl.
+    rewrite has_exchange_filter_other; [exact Hr|]. intros y Hy. replace (x_remote y =? r) with false by lia. reflexivity. }
+  assert (GA : GI (pad sA r)).
+  { apply (GI_filter_regs s (pad sA r) (fun _ => true)); auto. subst sA. unfold pad, cancel_timers. fsimpl. symmetry. apply filter_id_forall. reflexivity. }
+  assert (OA : forall g0, In g0 (s_regs sA) -> RegOK None sA g0 /\ PFok g0).
+  { intros g0 Hg0. destruct (Ho g0 Hg0) as [Ro Po]. split; [|exact Po].
+    apply (sameG_but_regs_RegOK None s sA); [reflexivity | reflexivity | reflexivity | apply piggy_shrinks_refl; reflexivity | apply (g_rng s HG); exact Hg0 | exact Ro]. }
+  assert (FB : GI (pad sB r) /\ forall g0, In g0 (s_regs sB) -> RegOK None sB g0 /\ PFok g0).
+  { subst sB. destruct b; [|split; assumption]. unfold stop. destruct (find_reg sA (x_gid x)); [|split; assumption]. split.
+    - apply (GI_filter_regs (pad sA r) _ (fun g => negb (g_gid g =? x_gid x))); auto.
+    - intros g0 Hg0. unfold remove_reg in Hg0. fsimpl. apply filter_In in Hg0 as [Hg0 _]. destruct (OA g0 Hg0) as [Ro Po]. split; [|exact Po].
+      eapply (sameG_but_regs_RegOK None sA); [reflexivity | reflexivity | reflexivity | apply piggy_shrinks_refl; reflexivity | apply (g_rng _ GA); exact Hg0 | exact Ro]. }
+  destruct FB as [GB OB]. apply continue_backlog_FI; assumption.
+Qed.
+
+Definition fexch (q : exch -> bool) (r : Z) (s : state) : state := purge_backlog (set_exch s (filter q (s_exch s))) r.
+Lemma stop_fexch q r s x : stop (fexch q r s) x = fexch q r (stop s x).
+Proof. unfold stop, fexch, find_reg, purge_backlog, remove_reg. fsimpl. destruct (find _ (s_regs s)); destruct s; reflexivity. Qed.
+Lemma fold_stop_fexch q r l : forall s, fold_left stop l (fexch q r s) = fexch q r (fold_left stop l s).
+Proof. induction l as [|x l IH]; intros s; cbn [fold_left]; [reflexivity|]. rewrite stop_fexch. apply IH. Qed.
+(* endpoint [r] is given up (transport error or retransmissions exhausted) *)
+Lemma give_up_FI q r s : FI None s -> (forall y, x_remote y <> r -> q y = true) -> FI None (fexch q r (stop_remote s r)).
+Proof.
+  intros H Hq. assert (H1 : FI None (stop_remote s r)) by (apply FI_fold_stop; exact H).
+  apply (purge_FI (stop_remote s r) _ r H1); try reflexivity.
+  - intros g0 Hg0. apply (stop_remote_none s r g0 Hg0).
+  - intros r' Hne Hr. unfold fexch, purge_backlog, has_exchange. fsimpl. rewrite has_exchange_filter_other; [exact Hr|].
+    intros y Hy. apply Hq. lia.
+Qed.
+Lemma dispatch_error_FI s r : FI None s -> FI None (dispatch_error s r).
+Proof.
+  intros H. unfold dispatch_error. destruct (s_down s); [exact H|].
+  apply (FI_frame None (fexch (fun x => negb (x_remote x =? r)) r (stop_remote s r))); [sameG | apply piggy_shrinks_refl; reflexivity|].
+  apply give_up_FI; [exact H|]. intros y Hy. replace (x_remote y =? r) with false by lia. reflexivity.
+Qed.
+Lemma fire_FI s k : FI None s -> FI None (fire s k).
+Proof.
+  intros H. destruct k as [r tok|m t c|r mid]; cbn [fire].
+  - destruct (piggy_find s r tok) as [mid|]; [|exact H].
+    set (m1 := mkmsg r ACK mid (-1) 0 None 0 0 (-1)).
+    destruct (si_fields (piggy_remove s r tok) m1 (-1)) as (A1 & A2 & A3 & A4 & A5 & A6 & A7 & A8 & A9 & A10).
+    apply (FI_other_send None s); [exact H | rewrite A1; reflexivity | rewrite A2; reflexivity | rewrite A5; reflexivity | left; rewrite A3; reflexivity | | left; rewrite A4; reflexivity | | ].
+    + intros g Hg. rewrite (wirel_cons g (piggy_remove s r tok) _ m1 A7). replace (m_gid m1 =? g) with false by (cbn; lia). reflexivity.
+    + intros r' Hr. apply A8. exact Hr.
+    + apply piggy_find_some_shrinks. rewrite A6. unfold piggy_remove. fsimpl. eexists. reflexivity.
+  - unfold retransmit. destruct (c <? MAX_RETRANSMIT).
+    + apply (FI_frame None s); [| apply piggy_shrinks_refl; reflexivity | exact H]. unfold add_timer, send_via_transport. sameG.
+      intros g _. unfold wirel. fsimpl. rewrite sends_cons_other by discriminate. reflexivity.
+    + set (q := fun x => negb ((x_remote x =? m_remote m) && (x_mid x =? m_mid m))).
+      change (FI None (stop_remote (fexch q (m_remote m) s) (m_remote m))). unfold stop_remote.
+      change (s_regs (fexch q (m_remote m) s)) with (s_regs s). rewrite fold_stop_fexch.
+      apply give_up_FI; [exact H|]. intros y Hy. subst q. cbn. replace (x_remote y =? m_remote m) with false by lia. reflexivity.
+  - apply (FI_frame None s); [sameG | apply piggy_shrinks_refl; reflexivity | exact H].
+Qed.
+Lemma advance_FI fuel : forall s t, FI None s -> FI None (advance fuel s t).
+Proof. induction fuel as [|f IH]; intros s t H; cbn [advance]; [exact H|].
+  destruct (min_timer (s_timers s)) as [tm|]; [|exact H]. destruct (t_due tm <=? t); [|exact H].
+  apply IH. apply FI_flush. apply fire_FI. apply (FI_frame None s); [sameG | apply piggy_shrinks_refl; reflexivity | exact H]. Qed.
+
+Lemma piggy_add_FI s s' r tok mid : FI None s -> sameG s s' ->
+  s_piggy s' = filter (fun e => match e with (r', tok', _) => negb ((r' =? r) && (tok' =? tok)) end) (s_piggy s) ++ [(r, tok, mid)] ->
+  FI (Some (r, tok)) s'.
+Proof.
+  intros [HG Ho] E Ep. split; [eapply GI_sameG; eassumption|]. pose proof E as (E1 & _). intros g0 Hg0. rewrite E1 in Hg0.
+  destruct (Ho g0 Hg0) as [R Po]. split; [|exact Po].
+  destruct E as (_ & E2 & E3 & E5 & E7 & Ew & Ex). destruct R as [R1 R2 R3 R4 R5].
+  assert (Hg0r : 0 <= g_gid g0) by (apply (g_rng s HG); exact Hg0).
+  assert (Pl : forall g, prodl g s' = prodl g s) by (intros; unfold prodl; rewrite E3; reflexivity).
+  assert (Ql : forall g, queuel g s' = queuel g s) by (intros; unfold queuel; rewrite E5; reflexivity).
+  constructor; rewrite ?Pl, ?(Ew _ Hg0r), ?Ql; try assumption.
+  intros Hk Hf. apply R3; [discriminate|]. unfold piggy_find in *. rewrite Ep in Hf.
+  set (p := fun e : Z * Z * Z => match e with (r', t', _) => (r' =? g_remote g0) && (t' =? g_token g0) end) in *.
+  destruct (find p (filter _ (s_piggy s) ++ [(r, tok, mid)])) as [e|] eqn:Ef; [|exfalso; apply Hf; reflexivity].
+  apply find_some in Ef as [Ei Epe]. apply in_app_iff in Ei as [Ei|[<-|[]]].
+  - apply filter_In in Ei as [Ei _]. intros Hn. eapply find_none in Hn; [|exact Ei]. fold p in Hn. congruence.
+  - exfalso. apply Hk. unfold key. cbn in Epe. f_equal. f_equal; lia.
+Qed.
+
+Lemma shutdown_FI s : FI None s -> s_down s = false -> FI None (step s EShutdown).
+Proof.
+  intros H Hd. cbn [step]. rewrite Hd. apply FI_flush.
+  set (s1 := fold_left stop (map g_gid (s_regs s)) s).
+  assert (H1 : FI None s1) by (apply FI_fold_stop; exact H).
+  assert (R1 : s_regs s1 = []) by (subst s1; apply fold_stop_all_regs).
+  destruct H1 as [HG _]. split.
+  - destruct HG as [H1 H2 H3 H4 H5 H6 H7 H8 H9 H10 H11]. unfold cancel_timers. constructor; fsimpl; try assumption; try (rewrite R1; constructor).
+    + rewrite R1. intros g0 [].
+    + intros Hx. discriminate.
+    + intros _. exact R1.
+  - unfold cancel_timers. fsimpl. rewrite R1. intros g0 [].
+Qed.
+
+Lemma step_FI s e : FI None s -> FI None (step s e).
+Proof.
+  intros H. destruct e; cbn [step].
+  - destruct (s_down s) eqn:Hd; [exact H|]. destruct (in_recent s r mid) as [st|].
+    + destruct con; [|exact H]. destruct st as [m|]; [|exact H].
+      apply (FI_frame None s); [| apply piggy_shrinks_refl; unfold send_initially, store_response_for_duplicates, add_exchange, add_timer; destruct (m_mtype m); reflexivity | exact H].
+      unfold send_initially, store_response_for_duplicates, send_via_transport, add_exchange, add_timer. destruct (m_mtype m); sameG;
+        try (intros g _; unfold wirel; fsimpl; rewrite sends_cons_other by discriminate; reflexivity).
+      intros r' Hr. unfold has_exchange. fsimpl. rewrite has_exchange_app, Hr. reflexivity.
+    + apply FI_flush.
+      set (s1 := set_recent (add_timer s EXCHANGE_LIFETIME_US (KExpire r mid)) _).
+      assert (H1 : FI None s1) by (apply (FI_frame None s); [sameG | apply piggy_shrinks_refl; reflexivity | exact H]).
+      destruct con.
+      * apply process_request_FI; [|exact Hd]. apply (piggy_add_FI s1 _ r tok mid H1); [unfold add_timer, cancel_timers, piggy_remove; sameG | reflexivity].
+      * apply process_request_FI; [apply FI_add_ex; exact H1 | exact Hd].
+  - destruct (s_down s); [exact H|]. apply FI_flush, remove_exchange_FI, H.
+  - destruct (s_down s); [exact H|]. apply FI_flush, remove_exchange_FI, H.
+  - apply FI_flush. assert (H1 := trigger_burst_FI (pick_order perm (s_observers s)) burst s H).
+    destruct burst; [exact H1 | apply wake_FI; exact H1].
+  - destruct (find_key s r tok) as [g|] eqn:E; [|exact H]. apply find_key_In in E as [E _].
+    destruct (task_entry s g H E) as (A & B & C & D).
+    destruct (g_phase g) eqn:Ep; [| exact H |]; apply FI_flush.
+    + apply first_render_done_FI; auto. unfold PFok in D. rewrite Ep in D. exact D.
+    + destruct (g_trig g) eqn:Et.
+      * (* a trigger arrived while rendering: the local copy still holds it; the continuation consumes it *)
+        apply after_response_FI_gen; auto.
+      * apply after_response_FI; auto. intros s1 g1 A1 B1 C1 D1. apply run_loop_idle; assumption.
+  - apply (FI_frame None s); [sameG | apply piggy_shrinks_refl; reflexivity | exact H].
+  - apply (FI_frame None s); [sameG | apply piggy_shrinks_refl; reflexivity | exact H].
+  - apply (FI_frame None (advance (advance_fuel s) s (s_now s + dt))); [sameG | apply piggy_shrinks_refl; reflexivity | apply advance_FI; exact H].
+  - apply FI_flush, dispatch_error_FI, H.
+  - destruct (s_down s) eqn:Hd; [exact H | ]. pose proof (shutdown_FI s H Hd) as X. cbn [step] in X. rewrite Hd in X. exact X.
+Qed.
